@@ -3,13 +3,14 @@
 // Bounded exhaustive enumeration on the real nbhttp.Parser (recording Processor and the real
 // Server/ClientProcessor with handlers that read the body):
 //
-//	(a) ALL byte strings of length <= 4 (thorough: <= 5) over the 12-symbol alphabet
+//	(a) ALL byte strings of length <= 4 (thorough: <= 6) over the 12-symbol alphabet
 //	    "GET/ H1.:\r\n0" appended to each of 11 valid prefixes that park the parser in each
 //	    macro-state (request line, header key, header value, Content-Length body, chunk size,
 //	    chunk data, trailer; status line positions on the client side), fed as one piece, as
 //	    prefix + suffix, and prefix + suffix byte-at-a-time;
 //	(b) the single-mutation neighbourhood (16 replacement bytes, delete, duplicate at every
-//	    position) of 20 base messages x one piece, every single cut, byte-at-a-time;
+//	    position) of 20 base messages x one piece, every single cut, byte-at-a-time (thorough: with the real processors
+//	    also every double cut);
 //	(c) every combination of ReadLimit in {default, 16, 64} and MaxHTTPBodySize in {0, 4, 64} on
 //	    messages whose tokens / bodies straddle those numbers (13..18 and 62..66 byte paths,
 //	    header names, header values, Content-Length bodies, chunks, chunk sums, pipelines whose
@@ -551,7 +552,7 @@ func run(tier string, sh *vkit.Shard, p *vkit.Part) {
 	// (a) short strings
 	maxLen := 4
 	if thorough {
-		maxLen = 5
+		maxLen = 6
 	}
 	for _, px := range prefixes {
 		px := px
@@ -619,6 +620,12 @@ func run(tier string, sh *vkit.Shard, p *vkit.Part) {
 								c.Cuts = cuts
 								e.judge(c, httpgen.Run(c, false), "b.single-cut", desc)
 							})
+							if thorough && mode == httpgen.Real {
+								httpgen.DoubleCutsAll(len(mu.b), func(cuts []int) {
+									c.Cuts = cuts
+									e.judge(c, httpgen.Run(c, false), "b.double-cut", desc)
+								})
+							}
 							c.Cuts, c.Every, c.Lite = nil, 1, false
 							e.judge(c, httpgen.Run(c, false), "b.byte-at-a-time(track)", desc)
 						}
@@ -679,7 +686,7 @@ func replay(_ string, raw json.RawMessage) string {
 func main() {
 	vkit.Main(&vkit.Spec{
 		Property: "C08", Level: "model_checking",
-		Rule: "one case = (byte stream, segmentation, processor, ReadLimit, MaxHTTPBodySize) executed on the real nbhttp.Parser; (a) all strings of length <= 4 (thorough 5) over 12 symbols after each of 11 parser-parking prefixes x {one piece, prefix+suffix, suffix byte-at-a-time}; (b) all distinct single-byte mutants of 20 base messages x {one piece, every single cut, byte-at-a-time}; (c) 3x3 limit configurations x 82 messages straddling 16/64 (tokens) and 4/64 (bodies) x {one piece, every single cut, pieces of 1,7,limit-1,limit,limit+1}; (d) malformed framing list (content-length, transfer-encoding, chunk-size forms, every structural CRLF minus CR / minus LF over 10 base messages, each continued by a valid message with and without a preceding empty line) x {one piece, every single cut, every double cut, byte-at-a-time}; a case is non-trivial when it ended in an error (the after-error clause is exercised by further Parse calls) or a feed left a non-empty carry-over buffer; every case of (c) is non-trivial by construction",
+		Rule: "one case = (byte stream, segmentation, processor, ReadLimit, MaxHTTPBodySize) executed on the real nbhttp.Parser; (a) all strings of length <= 4 (thorough 6) over 12 symbols after each of 11 parser-parking prefixes x {one piece, prefix+suffix, suffix byte-at-a-time}; (b) all distinct single-byte mutants of 20 base messages x {one piece, every single cut, byte-at-a-time; thorough: every double cut with the real processors}; (c) 3x3 limit configurations x 82 messages straddling 16/64 (tokens) and 4/64 (bodies) x {one piece, every single cut, pieces of 1,7,limit-1,limit,limit+1}; (d) malformed framing list (content-length, transfer-encoding, chunk-size forms, every structural CRLF minus CR / minus LF over 10 base messages, each continued by a valid message with and without a preceding empty line) x {one piece, every single cut, every double cut, byte-at-a-time}; a case is non-trivial when it ended in an error (the after-error clause is exercised by further Parse calls) or a feed left a non-empty carry-over buffer; every case of (c) is non-trivial by construction",
 		Assumptions: []string{
 			"a panic is detected through nbio's logging (recover() blocks log at error level); a hang is a Parse call that does not return within 30 s",
 			"after an error the harness calls CloseAndClean (what Engine.DataHandler's CloseWithError leads to) and then keeps feeding the rest of the stream and one valid message: every such call must return an error and no callback may fire",
